@@ -1,6 +1,6 @@
 (** C18, last clause: ifdata_cleanup() removes exactly the IF_DATA blocks that are flagged invalid and nothing else. *)
 From Coq Require Import String List Bool NArith Lia.
-From A2L Require Import Text.Escape Gram.Spec A2ml.Types Gram.PState Gram.Parser Lib.IfdataCleanup Gen.SpecShipped.
+From A2L Require Import Base.ListX Text.Escape Gram.Spec A2ml.Types Gram.PState Gram.Parser Lib.IfdataCleanup Gen.SpecShipped.
 Import ListNotations.
 
 (* an IF_DATA block with ifdata_valid = false somewhere below (or at) v *)
@@ -43,11 +43,6 @@ Proof.
 Qed.
 
 (** and on a file without invalid blocks the cleanup changes nothing *)
-Lemma map_id_in {A} (f : A -> A) l : (forall x, In x l -> f x = x) -> map f l = l.
-Proof. induction l as [|x r IH]; simpl; intros H; [reflexivity|]. rewrite H by (left; reflexivity). f_equal. apply IH. intros; apply H; right; assumption. Qed.
-Lemma filter_all {A} (p : A -> bool) l : (forall x, In x l -> p x = true) -> filter p l = l.
-Proof. induction l as [|x r IH]; simpl; intros H; [reflexivity|]. rewrite H by (left; reflexivity). f_equal. apply IH. intros; apply H; right; assumption. Qed.
-
 Theorem cleanup_without_invalid_blocks_is_identity : forall fuel v, ~ invalid_in v -> cleanup_value fuel v = v.
 Proof.
   induction fuel as [|f IH]; intros v Hn; [reflexivity|]. destruct v as [s off|l|ty lay fields kids cms|lay items valid]; simpl; try reflexivity.
